@@ -28,6 +28,8 @@ Statement level
     so early-return style and nested if/else style coincide
   * `if k in X: v = X[k] else: v = d`            ->  `v = X.get(k, d)`
   * `if c: pass else: B` -> `if not c: B`; stray `pass` removed
+  * an `if` of which only some leaves return / raise, followed by a short tail ending in return / raise: the tail
+    is moved to the leaves that fall through (every exit becomes a leaf of one decision tree)
   * `if a: S elif b: S else: T` -> `if a or b: S else: T` (equal arms, simple tests)
   * `a, b = (x, y)` -> `a = x`; `b = y` (plain distinct names not read on the right)
   * `if (x := E): S` -> `x = E; if x: S`; a walrus in a later conjunct of an else-less test nests the test
@@ -577,6 +579,23 @@ def _loops_to_comprehensions(stmts):
     return stmts
 
 
+def _partial_exit(s):
+    """the if statement contains a return / raise on some path of its arms but can also fall through"""
+    def has_exit(stmts):
+        for x in stmts:
+            if isinstance(x, (ast.Return, ast.Raise)):
+                return True
+            if isinstance(x, ast.If) and (has_exit(x.body) or has_exit(x.orelse)):
+                return True
+        return False
+
+    return (has_exit(s.body) or has_exit(s.orelse)) and not (_exits(s.body) and _exits(s.orelse))
+
+
+def _small_rest(res):
+    return len(res) <= 2 and all(isinstance(x, (ast.Return, ast.Raise, ast.Assign, ast.Expr)) for x in res) and sum(1 for x in res for _ in ast.walk(x)) <= 40 and isinstance(res[-1], (ast.Return, ast.Raise))
+
+
 def canon_block(stmts):
     """bottom-up: guard clauses become if/else nests; negated tests are swapped"""
     out = []
@@ -608,6 +627,11 @@ def canon_block(stmts):
             res = [swap_if(s)]
         elif isinstance(s, ast.If) and s.orelse and res and _exits(s.orelse) and not _exits(s.body):
             s = _loc(ast.If(test=s.test, body=canon_block(list(s.body) + list(res)), orelse=s.orelse), s)
+            res = [swap_if(s)]
+        elif isinstance(s, ast.If) and res and _partial_exit(s) and _small_rest(res):
+            # some leaves of the `if` leave the block, others fall through: the (small) rest is moved to the
+            # leaves that fall through, so that every exit is a leaf of one decision tree
+            s = _loc(ast.If(test=s.test, body=canon_block(list(s.body) + copy.deepcopy(list(res))), orelse=canon_block(list(s.orelse) + copy.deepcopy(list(res)))), s)
             res = [swap_if(s)]
         else:
             res.insert(0, swap_if(s) if isinstance(s, ast.If) else s)
